@@ -86,4 +86,34 @@ theorem c09_raw_nested_sources (cfg : Cfg) (bs : Bytes) (v : TVal) :
 example : rawSeqTop { src := .reader } SJ.Props.C19.exArr = .ok (.seq [.str [0x31], .str [0x5b, 0x32, 0x5d]]) :=
   (c09_raw_nested_sources {} _ _).1.mp rfl
 
+open SJ.Proofs.RawMap SJ.Proofs.RawKey in
+/-- **C09 (raw values, object values).** The same for a map of `Box<RawValue>`: slice and reader succeed on the
+    same inputs with the same entries; on valid UTF-8 input so does the `&str` source (a key literal inside
+    valid UTF-8 input is valid UTF-8, hence so is its decoding; a value text as for array elements). -/
+theorem c09_raw_map_sources (cfg : Cfg) (bs : Bytes) (v : TVal) :
+    (rawMapTop { cfg := cfg, src := .slice } bs = .ok v ↔ rawMapTop { cfg := cfg, src := .reader } bs = .ok v) ∧
+    (Spec.Utf8.validUtf8 bs = true →
+      (rawMapTop { cfg := cfg, src := .str } bs = .ok v ↔ rawMapTop { cfg := cfg, src := .slice } bs = .ok v)) := by
+  have key : ∀ (e1 e2 : SJ.Model.Typed.Env), e1.flt = false → e2.flt = false →
+      (∀ w₀ inner w₃ ms, bs = w₀ ++ [0x7b] ++ inner ++ [0x7d] ++ w₃ → MInner inner ms →
+        (∀ m ∈ ms, MemOK e1 m) → ∀ m ∈ ms, MemOK e2 m) → rawMapTop e1 bs = .ok v → rawMapTop e2 bs = .ok v := by
+    intro e1 e2 h1 h2 hc h
+    obtain ⟨ms, w₀, inner, w₃, rfl, hbs, h₀, h₃, hin, hcap⟩ := (SJ.Props.C19.c19_nested_capture_map e1 h1 bs v).mp h
+    exact (SJ.Props.C19.c19_nested_capture_map e2 h2 bs _).mpr
+      ⟨ms, w₀, inner, w₃, rfl, hbs, h₀, h₃, hin, hc w₀ inner w₃ ms hbs hin hcap⟩
+  have conv : ∀ (a b : Src), (b ≠ .str → a ≠ .str) →
+      ∀ m, MemOK { cfg := cfg, src := a } m → MemOK { cfg := cfg, src := b } m := by
+    intro a b hab m hm
+    exact ⟨⟨hm.1.wf, hm.1.dec, hm.1.sur, fun hb => hm.1.utf (hab hb)⟩, hm.2.1, fun hb => hm.2.2 (hab hb)⟩
+  refine ⟨⟨key _ _ rfl rfl ?_, key _ _ rfl rfl ?_⟩, fun hv => ⟨key _ _ rfl rfl ?_, key _ _ rfl rfl ?_⟩⟩
+  · intro _ _ _ _ _ _ hcap m hm; exact conv .slice .reader (fun _ h => by cases h) m (hcap m hm)
+  · intro _ _ _ _ _ _ hcap m hm; exact conv .reader .slice (fun _ h => by cases h) m (hcap m hm)
+  · intro w₀ inner w₃ ms hbs hin hcap
+    exact memOK_of_valid _ _ w₀ inner w₃ ms (hbs ▸ hv) hin hcap
+  · intro _ _ _ _ _ _ hcap m hm; exact conv .slice .str (fun h => absurd rfl h) m (hcap m hm)
+
+example : rawMapTop { src := .reader } SJ.Props.C19.exObj =
+    .ok (.map [(.str [0x61], .str [0x31]), (.str [0x61], .str [0x5b, 0x20, 0x5d])]) :=
+  (c09_raw_map_sources {} _ _).1.mp rfl
+
 end SJ.Props.C09
